@@ -1096,7 +1096,9 @@ class Grid(object):
         if align_corners:
             spacing = (self.extent() - self.spacing()) / (size - 1)
             grid._spacing = torch.where(self._size.gt(0), spacing, self._spacing)
-            assert torch.allclose(grid.origin(), self.origin())
+            # origin is derived from center, spacing and size: rounding errors scale with these, not with the origin itself
+            atol = 1e-5 * torch.max(self._center.abs().max(), self.extent().max())
+            assert grid.origin().sub(self.origin()).abs().le(atol).all()
         else:
             spacing = self.extent() / size
             grid._spacing = torch.where(self._size.gt(0), spacing, self._spacing)
